@@ -290,7 +290,7 @@ func init() {
 		},
 		Gen: func(r *Rng, tier string) *genProfile {
 			return &genProfile{MaxSteps: steps(tier, 40, 100), Default: 0, FollowUp: 60, Template: 45,
-				Templates: []string{"recover_flow", "recover_flow", "remember_then_reset", "remember_cycle", "op_reset", "rotated_then_reset"},
+				Templates: []string{"recover_flow", "recover_flow", "remember_then_reset", "remember_cycle", "op_reset", "rotated_then_reset", "reset_revocation_fails"},
 				Weights: withW(loginWeights, map[string]int{"recover_start": 8, "recover_end": 10, "op_update_password": 8, "probe": 10, "drop_session": 6,
 					"stale_cookie": 6, "copy_cookie": 3, "oauth2_start": 1, "oauth2_callback": 1}),
 				BadSecret: 30, FaultRate: []int{0, 0, 60}[r.Intn(3)], ThreshGaps: 8, SmallGaps: 20}
@@ -506,7 +506,7 @@ func init() {
 		},
 		Gen: func(r *Rng, tier string) *genProfile {
 			return &genProfile{MaxSteps: steps(tier, 40, 100), Default: 0, FollowUp: 60, Template: 35,
-				Templates: []string{"login_ok", "idle_probe", "idle_probe", "relogin_after_idle", "oauth_flow", "register_flow", "otp_flow", "recover_flow", "upgrade_to_expire", "cookie_then_idle"},
+				Templates: []string{"login_ok", "idle_probe", "idle_probe", "relogin_after_idle", "oauth_flow", "register_flow", "otp_flow", "recover_flow", "upgrade_to_expire", "cookie_then_idle", "mangled_then_idle"},
 				Weights: withW(loginWeights, map[string]int{"probe": 30, "advance": 10, "app_session_put": 8, "logout": 3, "oauth2_start": 4, "oauth2_callback": 4,
 					"register": 4, "drop_session": 1, "copy_cookie": 0, "stale_cookie": 0, "set_cookie": 0, "totp_setup": 3, "sms_setup": 3, "everify_start": 0}),
 				BadSecret: 20, ThreshGaps: 45, SmallGaps: 25,
@@ -566,11 +566,14 @@ func init() {
 				c.dropModules("lock")
 			}
 			c.dropModules("confirm")
+			// what a failed callback leaves in the session only reaches the
+			// browser when the error handler answers
+			c.Err500 = r.Bool()
 			return c
 		},
 		Gen: func(r *Rng, tier string) *genProfile {
 			return &genProfile{MaxSteps: steps(tier, 40, 100), Default: 0, FollowUp: 55, Template: 35,
-				Templates: []string{"oauth_flow", "oauth_flow", "oauth_cross", "oauth_remember", "login_ok", "oauth_provider_mixup"},
+				Templates: []string{"oauth_flow", "oauth_flow", "oauth_cross", "oauth_remember", "login_ok", "oauth_provider_mixup", "callback_exchange_fails", "callback_exchange_fails", "callback_exchange_fails"},
 				Weights: withW(loginWeights, map[string]int{"oauth2_start": 20, "oauth2_callback": 24, "replay": 10, "logout": 5, "login": 5, "probe": 3,
 					"recover_start": 0, "recover_end": 0, "register": 1, "totp_validate": 1, "sms_validate": 1, "op_lock": 2, "op_unlock": 1}),
 				BadSecret: 35, FaultRate: []int{0, 0, 60}[r.Intn(3)], ThreshGaps: 5, SmallGaps: 15, Redir: 15}
